@@ -332,6 +332,12 @@ RFrozen == /\ ag = AgInit /\ dag = AgInit /\ remote = FALSE /\ hist = 0
            /\ rlast = [op |-> "init", code |-> -1, method |-> "", ncalls |-> 0, argeq |-> TRUE, reseq |-> TRUE, aerr |-> FALSE,
                        cerr |-> FALSE, pan |-> FALSE, remote |-> FALSE, toolran |-> FALSE, lines |-> <<>>, slots |-> <<>>,
                        exit |-> 0, steq |-> TRUE, mode |-> "model"]
-SpecWire == WInit /\ RFrozen /\ [][WNext /\ UNCHANGED rvars]_vars
-SpecRpc  == RInit /\ WFrozen /\ [][RNext /\ UNCHANGED wvars]_vars
+ConsumeW   == Consume /\ UNCHANGED rvars
+ReleaseW   == Release /\ UNCHANGED rvars
+ViaClientR == (\E op \in Ops \ {"listslots"} : \E a \in ArgsOf(op) : ViaClient(op, a)) /\ UNCHANGED wvars
+ListSlotsR == (\E t \in ToolTexts, x \in {0, 1} : ListSlots(t, x)) /\ UNCHANGED wvars
+NextW == ConsumeW \/ ReleaseW
+NextR == ViaClientR \/ ListSlotsR
+SpecWire == WInit /\ RFrozen /\ [][NextW]_vars
+SpecRpc  == RInit /\ WFrozen /\ [][NextR]_vars
 =============================================================================
